@@ -421,7 +421,7 @@ func sweepC01(c *mc.Ctx) {
 	for _, pid := range pids {
 		for l := 1; l <= 760; l++ {
 			for _, hd := range []string{"pts", "ptsdts", "none", "full"} {
-				for _, af := range []string{"", "rai", "raipcr", "priv10", "ext", "splice", "extpw", "extss", "extltw"} { // "rai": flags only, an adaptation field of exactly one byte when nothing has to be stuffed
+				for _, af := range []string{"", "rai", "raipcr", "priv10", "ext", "splice", "extpw", "extss", "extss0", "extltw"} { // "rai": flags only, an adaptation field of exactly one byte when nothing has to be stuffed
 					shapes = append(shapes, shape{pid, l, hd, af, 0})
 				}
 			}
